@@ -46,6 +46,20 @@ func builders() []builder {
 		add("post"+op, 1, []bool{true}, op == "--", func(k []*E) *E { return incr(false, op, k[0]) })
 	}
 	add("fld", 1, nil, true, func(k []*E) *E { return fld(k[0]) })
+	add("nfld", 1, nil, true, func(k []*E) *E { return nfld(k[0]) }) // @expr (field by name)
+	add("regex", 0, nil, true, func(k []*E) *E { return leafR(1) })  // /r1/ as a value
+	add("string", 0, nil, false, func(k []*E) *E { return leafS(2) })
+	// every builtin function token is a primary and a concatenation start token
+	for _, fn := range []string{"close", "cos", "exp", "int", "length", "log", "sin", "sqrt", "system", "tolower", "toupper", "fflush", "srand", "sprintf"} {
+		fn := fn
+		add("call-"+fn, 1, nil, fn == "length", func(k []*E) *E { return call(fn, k[0]) })
+	}
+	for _, fn := range []string{"atan2", "index", "match", "substr", "sub", "gsub"} {
+		fn := fn
+		add("call-"+fn, 2, nil, false, func(k []*E) *E { return call(fn, k[0], k[1]) })
+	}
+	add("call-rand", 0, nil, false, func(k []*E) *E { return call("rand") })
+	add("call-split", 1, nil, false, func(k []*E) *E { return call("split", k[0], leafV(12)) })
 	add("idx", 1, nil, true, func(k []*E) *E { return idx(11, k[0]) })
 	add("getline", 0, nil, false, func(k []*E) *E { return getl(nilE(), nilE(), nilE()) })
 	add("getline-lv", 1, []bool{true}, false, func(k []*E) *E { return getl(nilE(), k[0], nilE()) })
